@@ -17,6 +17,7 @@ package main
 import (
 	"bytes"
 	"encoding/hex"
+	"errors"
 	"encoding/json"
 	"fmt"
 	"os"
@@ -41,6 +42,7 @@ const (
 	findConc     = "concurrent-result-differs-from-solo"
 	findSolo     = "solo-run-unexpected-result"
 	findStaleCap = "byteslicepool-stale-cap"
+	findSurplus  = "enc-header-surplus-aliases-pooled-buffer"
 	hookName     = "enc.decrypt.afterReadHeader"
 )
 
@@ -160,9 +162,14 @@ func (c rhCase) line() string {
 }
 
 // runRH calls the real readHeader and canonicalises what it returned.
-func runRH(c rhCase) (canon string, aliasM, aliasC bool) {
+// restBad: the rest of the stream (surplus bytes pushed back + what was not read yet), read AFTER
+// every buffer of the pool has been overwritten, is not the document's bytes behind the header.
+func runRH(c rhCase) (canon string, aliasM, aliasC bool, restBad string) {
 	doc, _ := hex.DecodeString(c.Doc)
 	res := wl.Guard(30*time.Second, func() string {
+		if errors.Is(rhShapeErr, enc.ErrVerifC08Shape) {
+			return "unknown-shape"
+		}
 		m, k, rest, err := enc.VerifC08ReadHeader(&chunkReader{bytes.NewReader(doc), c.Chunk})
 		if err != nil {
 			return "err"
@@ -171,16 +178,37 @@ func runRH(c rhCase) (canon string, aliasM, aliasC bool) {
 		aliasC, _ = wl.InPoolBuffer(k)
 		mc := append([]byte(nil), m...)
 		kc := append([]byte(nil), k...)
-		// what is left of the stream (surplus bytes pushed back + unread rest)
+		// the buffer(s) used for the header are back in the pool and no pipeline is running: whoever
+		// takes them may write to them. What is still to be read from the stream must not change.
+		wl.ScribbleIdlePool(0xA5)
 		restB := new(bytes.Buffer)
 		_, rerr := restB.ReadFrom(rest)
 		if rerr != nil {
 			return "rest-error"
 		}
+		if want := doc[len(headerOf(doc)):]; !bytes.Equal(restB.Bytes(), want) {
+			restBad = fmt.Sprintf("rest of the stream after the header: %d bytes %s…, the document has %d bytes %s… there", restB.Len(), hex.EncodeToString(head(restB.Bytes(), 12)), len(want), hex.EncodeToString(head(want, 12)))
+		}
 		return fmt.Sprintf("ok man=%s mac=%s restlen=%d alias=%d,%d", hex.EncodeToString(mc), hex.EncodeToString(kc), restB.Len(), b2i(aliasM), b2i(aliasC))
 	})
-	return res, aliasM, aliasC
+	return res, aliasM, aliasC, restBad
 }
+
+func head(b []byte, n int) []byte {
+	if len(b) > n {
+		return b[:n]
+	}
+	return b
+}
+
+// rhShape: the signature of readHeader found in the tree under test (see the overlay).
+var rhShape = enc.VerifC08ReadHeaderShape()
+var rhShapeErr = func() error {
+	if strings.HasPrefix(rhShape, "unknown") {
+		return enc.ErrVerifC08Shape
+	}
+	return nil
+}()
 
 func b2i(b bool) int {
 	if b {
@@ -312,6 +340,7 @@ func main() {
 	checkCronRace(res, rng, budget)
 	checkCronDescriptors(res, rng, budget)
 	checkHandoff(f, res)
+	checkOpenMany(f, res, drv, lib.NewRand(f.Seed*1000003+8))
 	checkFileKeyStress(f, res)
 	checkLoggerOutput(f, res)
 
@@ -400,12 +429,32 @@ func checkRH(res *lib.Result, drv *lib.Drv, cases []rhCase) {
 			outs = nil
 		}
 	}
+	ownBuffer := rhShape == "own-buffer"
+	restReported := false
+	if !ownBuffer && len(cases) > 0 {
+		// the white-box tie was written for `readHeader(in *io.Reader)` taking and returning its buffer
+		// itself; with another shape the overlay plays the caller (buffer from BufPool, Put when the
+		// wrapper returns). Who owns the buffer while manifest/mac are in use is then the caller's
+		// business: no alias VIOLATION is raised from here — the tie is reported as not matching, and
+		// the API-level families (forced, hand-off, open-many, concurrent) decide about the property.
+		res.Note("readHeader has the shape " + rhShape + " (expected func(*io.Reader) ([]uint8, []uint8, error))")
+		res.Disagree("readHeader-shape", cases[0], "func(*io.Reader) ([]uint8, []uint8, error): takes a buffer from BufPool and puts it back itself", rhShape)
+	}
 	for i, c := range cases {
-		impl, am, ac := runRH(c)
+		impl, am, ac, restBad := runRH(c)
 		res.Count("rh:"+c.line(), true)
 		res.Hit("rh:" + strings.SplitN(impl, " ", 2)[0])
-		if am || ac {
+		if ownBuffer && (am || ac) {
 			res.Violate(findAlias, fmt.Sprintf("readHeader returned manifest/mac pointing into a buffer of BufPool (manifest=%v mac=%v) after putting it back", am, ac), c)
+		}
+		if restBad != "" {
+			if ownBuffer {
+				res.Hit("rh:rest-depends-on-pooled-buffer")
+				res.Violate(findSurplus, "the reader readHeader pushes back in front of the stream reads from a buffer that is back in BufPool: after overwriting every pooled buffer, "+restBad, c)
+			} else if !restReported {
+				restReported = true
+				res.Disagree("readHeader-shape: rest of the stream vs pooled buffers (the overlay, playing the caller, Puts the buffer when it returns)", c, "rest = the document's bytes behind the header", restBad)
+			}
 		}
 		if outs != nil {
 			res.Traces++
@@ -674,6 +723,8 @@ func replay(f lib.Flags, res *lib.Result, drv *lib.Drv) {
 		}
 	case "handoff":
 		checkHandoff(f, res)
+	case "openmany":
+		replayOpenMany(f, res, drv, rp.Case)
 	case "fkstress":
 		checkFileKeyStress(f, res)
 	case "logout":
